@@ -19,7 +19,8 @@ RULE = ("Hypothesis-generated run_experiment_group definitions (0-6 instances; p
         "run under the virtual kernel with identical tape, clock, outcome map. Compared: accept/reject, task set, per-task "
         "type/ordered deps/args/options/parallelizable, spawn traces, stdout, rows, cond-out trees (modulo root). "
         "Non-trivial = >=2 instances and (chaining or shared deps or a name clash). Distinct = SHA-1 of case JSON. "
-        "programs = number of sugar/expansion pairs; disagreements_checked = pairs for which every comparison was evaluated.")
+        "programs = number of sugar/expansion pairs; disagreements_checked = pairs for which every comparison was evaluated."
+        " A quarter of the cases define the same group (same instance names) once more in a sibling package and load both files in one invocation.")
 ASSUMPTIONS = ["the expansion is the one shown on website/docs/task-types/run-experiment-group.md",
                "when the expansion is undefined (an element that is not an ExperimentInstance) only clean rejection of the sugar is required",
                "ill-typed chain_experiments is not generated (documented Boolean, implemented by truthiness)"]
